@@ -159,7 +159,19 @@ func runUWire(w *bufio.Writer, seed uint64, n int, _ []string) {
 			}
 			ips.FrameBuilder = ff
 		}
-		if kind != "flight" && r.Intn(3) == 0 {
+		if ci == 0 {
+			// fixed scenario: a QUICMultiDatagramFrames whose SECOND entry has inverted bounds, with a
+			// ClientHello of two datagrams
+			kind = "multi"
+			md := &quic.QUICMultiDatagramFrames{PerDatagram: []quic.QUICRandomFrames{
+				{MinPING: 0, MaxPING: 2, MinCRYPTO: 1, MaxCRYPTO: 3},
+				{MinPING: 3, MaxPING: 1, MinCRYPTO: 1, MaxCRYPTO: 3}}}
+			ips = quic.InitialPacketSpec{FrameBuilder: md}
+			sb = u.App("SBRandom", u.List([]string{rfTerm(md.PerDatagram[0]), rfTerm(md.PerDatagram[1])}))
+			hl = 2000
+			hello = testData(r, hl)
+		}
+		if kind != "flight" && ci != 0 && r.Intn(3) == 0 {
 			ips.InitialPackets = []quic.InitialPacketPlan{{CryptoLength: int(r.Pick(60, 150, 300, 500))}}
 		}
 		dist["builder:"+kind]++
@@ -194,7 +206,12 @@ func runUWire(w *bufio.Writer, seed uint64, n int, _ []string) {
 				dist["pack-error"]++
 				c := errClass(err)
 				if sentAny && first && c != 6 {
-					monfail(w, "uwire/late-config-error", "the flight was rejected after part of the ClientHello went out: "+err.Error(), det())
+					// this packer was built without going through dial: would the real dial have refused the spec?
+					if rej, msg := quic.VerifUFramesDialRejects(sp); !rej {
+						monfail(w, "uwire/late-config-error", "the configuration is rejected only after part of the ClientHello went out ("+err.Error()+"); UTransport.Dial does not refuse it: "+msg, det())
+					} else {
+						dist["late-error-refused-at-dial"]++
+					}
 				}
 				broken = true
 				return nil
@@ -270,6 +287,42 @@ func runUWire(w *bufio.Writer, seed uint64, n int, _ []string) {
 			}
 			fmt.Fprintf(w, "CASE %d %s\n", nt, u.App("WireCase", sb, u.Hex(hello), u.List(pkts)))
 		}
+	}
+	// ---- what UTransport.Dial says about randomizing builders (model: OnWire.dial_check) ----
+	for i := 0; i < n/3+6; i++ {
+		r := root.Fork()
+		var fb quic.QUICFrameBuilder
+		var ts []string
+		if r.Intn(3) == 0 {
+			g, _ := genRF(r, 100)
+			fb = &g
+			ts = []string{rfTerm(g)}
+		} else {
+			md := &quic.QUICMultiDatagramFrames{}
+			for j := r.Intn(4); j > 0; j-- {
+				g, _ := genRF(r, 100)
+				if r.Intn(3) != 0 {
+					g.MaxPING, g.MaxCRYPTO = max(g.MaxPING, g.MinPING), max(g.MaxCRYPTO, max(g.MinCRYPTO, 1))
+					g.MinCRYPTO = max(g.MinCRYPTO, 1)
+					g.MinPADDING = max(g.MinPADDING, 1)
+					g.MaxPADDING = max(g.MaxPADDING, g.MinPADDING)
+				}
+				md.PerDatagram = append(md.PerDatagram, g)
+				ts = append(ts, rfTerm(g))
+			}
+			fb = md
+		}
+		rej, msg := quic.VerifUFramesDialRejects(&quic.QUICSpec{InitialPacketSpec: quic.InitialPacketSpec{FrameBuilder: fb}})
+		cls := int64(0)
+		if rej {
+			cls = errClass(fmt.Errorf("%s", msg))
+		}
+		dist[fmt.Sprintf("dial-class-%d", cls)]++
+		nt := 0
+		if rej {
+			nt = 1
+		}
+		fmt.Fprintf(w, "CASE %d %s\n", nt, u.App("DialCase", u.List(ts), u.Z(cls)))
 	}
 	flushMonfail(w)
 	keys := make([]string, 0, len(dist))
